@@ -101,6 +101,7 @@ def run(tier, replay=None):
     scen = []
     for r in res[ngen0:]:
         scen += vlib.tlc_printed_json(r, "GEN")
+    scen.sort(key=lambda s: json.dumps(s, sort_keys=True))   # TLC workers print in any order: the seed must select the same scenarios
     if len(scen) < 500:
         raise MachineryError(f"ReceiverCfg produced only {len(scen)} scenarios")
     genf = c.work / "gen.jsonl"
